@@ -117,6 +117,11 @@ class PersistentRemoteWorker(PersistentWorker, RemoteWorker):
                 assert len(result) == 2
                 logger.info(f'Final result received')
                 self._result = result
+                if not last_partial_result_signalled:
+                    # the child ended without sending its end-of-stream marker (e.g. it was killed and the server reports on
+                    # its behalf): whoever waits on the results queue must still see the stream end
+                    self._results_pipe.child_end.put((counter, False, None, self.id))
+                    last_partial_result_signalled = True
                 try:
                     self._user_state = recv_msg(self._socket, comment='data: user state')
                     logger.debug('User state received')
